@@ -5,12 +5,7 @@ ROOT = os.path.dirname(os.path.dirname(os.path.abspath(__file__)))
 ALL = ["C%02d" % i for i in range(1, 21)]
 SUITE = "cd /repo && GOFLAGS=-mod=mod GOPROXY=off GOSUMDB=off GOTOOLCHAIN=local go test -mod=mod -json -vet=off -count=1 -timeout 25m ./..."
 
-CHECKS = {
- "C01": dict(cat="exploration", ref="DESIGN.md §4 C01",
-   technique="runtime monitoring: oracle over Msg.WriteTo output (own MIME reader + stdlib cross-reader) on seeded builder-call sequences",
-   text="Seeded and enumerated builder-call sequences are rendered by the real code; an independent MIME reader decodes every output and compares leaf order, headers, nesting, boundaries and decoded bytes with the spec. Held-on-observed-executions evidence: it covers the shapes/encodings/content classes generated, not all inputs.",
-   note="Trusts internal/mimeread (cross-checked on every message against net/mail+mime/multipart) and mime.TypeByExtension for derived media types."),
-}
+CHECKS = json.load(open(os.path.join(ROOT, "tools", "checks.json")))
 NA_REASON = "check not built yet in this session (work in progress; see DESIGN.md §4 for the planned monitor)"
 
 def main():
